@@ -974,14 +974,26 @@ func (p *Policy) validURL(rawurl string) (string, bool) {
 		// dropping an empty fragment or query can expose white space that
 		// the trimming above could not see, trim again so that the result
 		// is stable when it is sanitized once more
-		normalised := func() string { return strings.TrimSpace(u.String()) }
+		//
+		// re-serialising can also change what the URL means: a path such
+		// as /%2Fexample.com/^ is written back as //example.com/%5E, which
+		// names a host, and the result may not even parse. The result is
+		// only used when it reads back with the same scheme and host
+		normalised := func() (string, bool) {
+			s := strings.TrimSpace(u.String())
+			v, err := url.Parse(s)
+			if err != nil || v.Scheme != u.Scheme || v.Host != u.Host {
+				return "", false
+			}
+			return s, true
+		}
 
 		if u.Scheme != "" {
 			urlPolicies, ok := p.allowURLSchemes[u.Scheme]
 			if !ok {
 				for _, r := range p.allowURLSchemeRegexps {
 					if r.MatchString(u.Scheme) {
-						return normalised(), true
+						return normalised()
 					}
 				}
 
@@ -989,12 +1001,12 @@ func (p *Policy) validURL(rawurl string) (string, bool) {
 			}
 
 			if len(urlPolicies) == 0 {
-				return normalised(), true
+				return normalised()
 			}
 
 			for _, urlPolicy := range urlPolicies {
 				if urlPolicy(u) {
-					return normalised(), true
+					return normalised()
 				}
 			}
 
@@ -1002,8 +1014,8 @@ func (p *Policy) validURL(rawurl string) (string, bool) {
 		}
 
 		if p.allowRelativeURLs {
-			if normalised() != "" {
-				return normalised(), true
+			if s, ok := normalised(); ok && s != "" {
+				return s, true
 			}
 		}
 
